@@ -362,11 +362,20 @@ func v06GenPlan(rt *rapid.T) *v06Plan {
 				c.preCW = rapid.SampledFrom([]int{0, 0, 1, 900, 40000}).Draw(rt, fmt.Sprintf("c%dPreCW", i))
 			}
 		}
+		capPre := func(n int) int {
+			// while the dial is parked the server does not read the stream: a write larger than the
+			// stream flow-control window (minus the request header) could only return after the release
+			if c.slowDial && p.smallWin > 0 && n > p.smallWin/2 {
+				return p.smallWin / 2
+			}
+			return n
+		}
+		c.preCW = capPre(c.preCW)
 		if !vetoSafe && rapid.IntRange(0, 6).Draw(rt, fmt.Sprintf("c%dKind", i)) == 6 {
 			c.dialFail = true
 			c.msg = v06GenMsg(rt, fmt.Sprintf("c%dMsg", i))
 			if p.fastOpen {
-				c.foWrite = rapid.SampledFrom([]int{0, 0, 1, 700, 40000}).Draw(rt, fmt.Sprintf("c%dFoWrite", i))
+				c.foWrite = capPre(rapid.SampledFrom([]int{0, 0, 1, 700, 40000}).Draw(rt, fmt.Sprintf("c%dFoWrite", i)))
 			}
 			p.conns = append(p.conns, c)
 			continue
